@@ -31,8 +31,7 @@ CXX_POOL = {"_ZN2ns1fEi": "ns::f(int)", "_ZN2ns1gEv": "ns::g()", "_ZN2ns2ggEv": 
             "_ZN2ns3Cls6methodEv": "ns::Cls::method()", "_Z4cpp2i": "cpp2(int)"}
 
 LAYOUTS = ["plain", "plain", "plain", "plain", "no-global-keyword", "sp-colon", "comments", "one-line", "multi-line",
-           "parent-space", "multi-parent", "quoted-exact", "extern-C", "extern-nosemi", "extern-2sp", "repeated-sections",
-           "tabs"]
+           "parent-space", "multi-parent", "quoted-exact", "extern-C", "extern-nosemi", "extern-2sp", "tabs"]
 
 
 def gen_patterns(r, csyms, cxxsyms, n, used):
@@ -94,7 +93,7 @@ def gen_case(r):
     for i in range(nnodes):
         names.append(r.choice([f"V{i + 1}", f"LIB_{i + 1}.0", f"VERS_{i + 1}"]))
     nodes = []
-    used_g, used_l = set(), set()
+    used_g = used_l = set()      # GNU ld rejects a pattern that occurs twice anywhere in the script
     for i in range(nnodes):
         g = gen_patterns(r, csyms, cxxsyms, r.choice([0, 1, 1, 2, 3, 4]), used_g)
         l = gen_patterns(r, csyms, cxxsyms, r.choice([0, 0, 0, 1, 2]), used_l)
@@ -163,7 +162,8 @@ def render(case, layout):
             parts += ["global" + colon] + g[1:]
         else:
             if g:
-                parts += ([] if layout == "no-global-keyword" else ["global" + colon]) + g
+                # GNU ld only allows the implicit global section in a node without a local section
+                parts += ([] if layout == "no-global-keyword" and not l else ["global" + colon]) + g
             if l:
                 parts += ["local" + colon] + l
         if layout == "comments":
@@ -179,11 +179,12 @@ def render(case, layout):
     return ("" if layout == "one-line" else "\n").join(out) + "\n"
 
 
-def sources(case):
-    """-> (asm text, ids: symbol -> id, alias ids: (base, nodeidx) -> id)"""
+def sources(case, salt=""):
+    """-> (asm text, ids: symbol -> id, alias ids: (base, nodeidx) -> id). `salt` makes the text (and
+    so the cached object file) private to the case."""
     ids = {}
     nid = 100
-    s = [".text\n"]
+    s = [f"# case {salt}\n.text\n"]
     for nm in case["csyms"] + case["cxxsyms"]:
         nid += 1
         ids[nm] = nid
@@ -206,6 +207,7 @@ def sources(case):
 
 
 DEP_SRC = dyngen.func_asm([("dep_f", 901), ("dep_g", 902), ("dep_h", 903)])
+DEP_OBJ = [None]      # assembled once in main(), before the parallel part
 DEP_MAP = "DEP_1 { global: dep_f; local: *; };\nDEP_2 { global: dep_g; } DEP_1;\nDEP_3 { global: dep_h; } DEP_2;\n"
 
 
@@ -462,12 +464,12 @@ def consumer_list(case, lmap, ids, alias):
 
 def run_case(ctx, cid, case):
     d = ctx.scratch.dir("c", cid)
-    src, ids, alias = sources(case)
+    src, ids, alias = sources(case, cid)
     obj = tools.assemble(ctx, src)
     dep = None
     if case["dep"]:
         dep = os.path.join(d, "libdep.so")
-        dobj = tools.assemble(ctx, DEP_SRC)
+        dobj = DEP_OBJ[0]
         dm = write(os.path.join(d, "dep.map"), DEP_MAP)
         r0 = tools.link("ld", ["-shared", dobj, "--version-script=" + dm, "-o", dep, "-soname", "libdep.so"])
         if not r0.ok:
@@ -644,6 +646,7 @@ def main(ctx):
                        "scripts wild rejects with a clean error are inconclusive (counted per layout feature)"]
     tools.wild()
     dyngen.dlsym_driver(ctx)
+    DEP_OBJ[0] = tools.assemble(ctx, DEP_SRC)
     n = ctx.pick(80, 1500)
     pins = dict(pinned_cases())
     jobs = list(pins) + list(range(n))
